@@ -10,6 +10,7 @@ import (
 	"verif/checker/internal/report"
 	"verif/checker/internal/rules"
 	"verif/checker/internal/shape"
+	"verif/checker/internal/sym"
 )
 
 func usage() {
@@ -26,6 +27,8 @@ func main() {
 		cmdDump(os.Args[2:])
 	case "sweep":
 		cmdSweep(os.Args[2:])
+	case "terms":
+		cmdTerms(os.Args[2:])
 	case "check":
 		os.Exit(cmdCheck(os.Args[2:]))
 	default:
@@ -151,4 +154,39 @@ func cmdCheck(args []string) (code int) {
 	c := rules.NewCtx(p, tier, run)
 	check.Fn(c)
 	return run.Finish(verif)
+}
+
+func cmdTerms(args []string) {
+	repo := "/repo"
+	filter := ""
+	for i := 0; i < len(args); i++ {
+		switch args[i] {
+		case "--repo":
+			i++
+			repo = args[i]
+		default:
+			filter = args[i]
+		}
+	}
+	p, err := load.Load(repo, false)
+	if err != nil {
+		fmt.Fprintln(os.Stderr, "CHECK-BROKEN:", err)
+		os.Exit(2)
+	}
+	it := shape.NewInterp(p, shape.ModeContracts)
+	for _, fi := range shape.PipelineRoots(p) {
+		name := load.FuncName(fi.Fn)
+		if fi.Fn.Name() != "Compute" || !strings.Contains(name, filter) {
+			continue
+		}
+		for _, r := range it.AnalyzeRoot(fi) {
+			t := shape.NewTerms(p, r)
+			for i, s := range shape.StreamsOf(r.Ret) {
+				fmt.Printf("%s out%d [%s]\n    %s\n", name, i, strings.Join(r.PathConds, ";"), sym.CanonString(t.Of(s)))
+			}
+			for _, o := range t.Opaque {
+				fmt.Printf("    opaque: %s\n", o)
+			}
+		}
+	}
 }
